@@ -22,7 +22,14 @@
      returns None = the constructor raised); in deleteEntriesFrom the model decodes whatever the
      short slice holds (never happens in a state that satisfies the representation invariant).
    - commands are byte strings (to_bytes(command) = command); negative entryFrom / entryTo are
-     not modelled (the arguments are naturals). *)
+     not modelled (the arguments are naturals).
+   - MetaStorer.storeMeta: open(path + '.tmp', 'wb') + write + flush is ONE primitive (TmpWrite);
+     a kill between the open (which truncates .tmp) and the write leaves an empty .tmp, which no
+     constructor ever reads, so it is observationally a kill before the TmpWrite.
+   - onOneSecondTimer with metaSaved = False and no 'raftCommitIndex' key cannot happen
+     (metaSaved only becomes False in setRaftCommitIndex); the model returns no primitives there.
+   - a fresh file: default header (40 bytes) resized to 1024; a kill between the creation of the
+     file and the resize is covered by pad_file in reopen. *)
 From Coq Require Import ZArith NArith List Lia Bool.
 From PSO Require Import Base.PyBytes.
 Import ListNotations.
